@@ -37,8 +37,10 @@ The text level: the theorems of this file end with `Finish.apply` on the record 
 `mfeDesign`).  **Part 3 is `PepperProps/C06Text.lean`** (a file of its own because `ParsePil.lean` imports this one):
 `end_to_end_text*` state the same results for `Finish.finishText` on the rendered TEXT of the records, the readability
 of the records (`wfRec`: name alphabet, no empty sequence, letters in the reader's alphabet) being derived from the
-compile (`mfeRecs_readable`) through `text_level_partial` below.  Still open there: the GC-content field of a record is
-an arbitrary valid float token (the model writes the opaque token `GC`; Python's `%f` is not modelled).
+compile (`mfeRecs_readable`) through `text_level_partial` below; there the GC-content field of a record is an arbitrary
+valid float token (the model's `Mfe.output` writes the opaque token `GC`).  **Part 4 is `PepperProps/C06Gc.lean`**: Python's
+`"%f" % (count / length)` is modelled exactly (`PepperModel/GcFloat.lean`), `Mfe.outputGc` writes the whole text of the file,
+and `C06Gc.Props.text_level` / `end_to_end_text_gc` state the text level for THAT text, with no token left free.
 
 **Part 1** is the finish stage on its own (`Relations`, `CompRel`, `AtomOk`, `IsConcat`, `IsJoin`, `render`,
 `finishText` in `PepperProofs/Finish.lean`) and the two file-listing clauses.
@@ -365,9 +367,15 @@ theorem mfe_names_distinct_of_compile {b : Sys.Bundle} {fuel : Nat} {base : Stri
     PIL and refuses zero-length strands and signals —, structures with a strand and a non-empty text).  The end-to-end
     theorems at the text level are `Text.end_to_end_text`, `_component`, `_struct`, `_tokens`.
 
-    WHAT REMAINS (why this is still named `_partial`): the GC-content field.  The model's `Mfe.output` writes the opaque
-    token `GC` there (`mfeLines`); the statement is for ANY token `g` over `[0-9.-]` that `float()` accepts.  That
-    Python's `"%f" % gc_content` prints such a token is not modelled (no float formatting in the model). -/
+    WHY THIS LEMMA KEEPS THE NAME `_partial`: the GC-content field.  The model's `Mfe.output` writes the opaque token
+    `GC` there (`mfeLines`), and this statement is for ANY token `g` over `[0-9.-]` that `float()` accepts (`hg1`, `hg2`).
+    THE GAP IS CLOSED in `PepperProps/C06Gc.lean` (model `PepperModel/GcFloat.lean`: `"%f" % (count / length)` in exact
+    integer arithmetic — binary64 division and `%f`, both correctly rounded, ties to even; `Mfe.outputGc` writes the whole
+    record line): `Pepper.C06Gc.Props.gcToken_shape` proves `hg1` and `hg2` for the token Python prints,
+    `Pepper.C06Gc.Props.text_level` is this lemma WITHOUT a free token and without `hg1`/`hg2`/`hwf` (for a readable
+    specification, the text `Mfe.outputGc` writes), and `Pepper.C06Gc.Props.end_to_end_text_gc` (`_component`, `_struct`)
+    are the end-to-end theorems on that text.  The correspondence of the token with the running interpreter is checked
+    by `harness/props/c06.py` on every run (exhaustively for lengths up to 220). -/
 theorem text_level_partial {spec : Spec} {asg : Var → Base} {g : List Char}
     (hg1 : Finish.okWord Finish.isNumChar g = true) (hg2 : Finish.validFloat g = true)
     (hwf : ∀ x ∈ mfeRecsGC Generated.pilTable spec asg g, Finish.wfRec Generated.alphaMfeSeq x = true)
